@@ -162,6 +162,7 @@ def gen_session(rng, tier, profile="mixed"):
     if rng.random() < 0.1 or profile == "compress":
         flags |= F_COMPRESS             # allowed by the user; the scripted server never grants it
     s.force_comp = profile == "compress"
+    s.may_compress = bool(flags & F_COMPRESS)
     if profile == "compress":
         flags &= ~(F_LEGACY_SSL | F_MANDATORY_TLS)
     ctype = rng.choice(["c"] * 8 + ["k", "r"])
@@ -199,7 +200,10 @@ def gen_session(rng, tier, profile="mixed"):
         if rng.random() < 0.06:
             ops.append("connect " + rng.choice(["c", "k", "r"]))      # refused: not disconnected
         if rng.random() < 0.1:
-            ops.append("setflags %d" % rng.randrange(256))
+            f2 = rng.randrange(256)
+            ops.append("setflags %d" % f2)
+            if f2 & F_COMPRESS:
+                s.may_compress = True
         ops.append("run")
         if rng.random() < 0.08:
             ops += ["tick %d" % rng.choice([4999, 5000, 5001, 6000]), "run", "tcperr 0", "run"]
@@ -242,7 +246,10 @@ def one_stream(s, rng, flags, ctype, jid, pw, cert, sm_resumable):
         if k < 0.25:
             return text + text                           # duplicate
         if k < 0.5:
-            return rng.choice(WRONG)(rng)                # wrong element
+            w = rng.choice(WRONG)(rng)                   # wrong element
+            # (a real <compressed/> after a real <compress/> would start a deflated stream, which
+            #  this engine cannot read back: engine zl covers compressed streams)
+            return "<handshake/>" if ((flags & F_COMPRESS) or getattr(s, "may_compress", False)) and "<compressed" in w else w
         if k < 0.6:
             return text[: rng.randrange(1, max(2, len(text)))]   # truncated (parse trouble later)
         if k < 0.7:
